@@ -33,60 +33,88 @@ const I_BUF: u8 = 3;
 const I_SKIP: u8 = 4;
 const I_LEN: u8 = 5;
 
-/// The only shared-memory step of a pull: one fetch_add(n) with at least AcqRel.
-fn one_rmw(n: usize) -> usize {
-    assert!(
-        hook::count() == 1,
-        "C09 C04 C01: a pull on a known-size source must perform exactly one atomic access (lock-free, linearizable at it)"
-    );
-    let e = hook::ev(0);
-    assert!(
-        e.kind == K_FETCH_ADD,
-        "C01 C04 C09: the single atomic access of a pull must be a fetch_add (not a separate load and store)"
-    );
-    assert!(e.operand == n, "C01 C03: the pull must reserve exactly the requested number of positions");
-    assert!(
-        e.ord == O_ACQREL || e.ord == O_SEQCST,
-        "C07: the reservation must be an acquire-release (or stronger) read-modify-write"
-    );
-    assert!(e.new == e.old.wrapping_add(n), "harness: hook semantics");
-    e.old
+// ---- the other party: at most one complete foreign pull, at an arbitrary atomic access point of the
+// operation under test (the memory-backed hook calls it before serving each access) --------------------
+static mut VH_IND_IT: *const () = core::ptr::null();
+static mut VH_IND_THEIRS: [u8; LMAX] = [0; LMAX];
+static mut VH_IND_BUDGET: usize = 0;
+static mut VH_IND_RAN: bool = false;
+static mut VH_IND_BAD: bool = false;
+
+fn theirs(p: usize) {
+    unsafe {
+        if p < LMAX {
+            VH_IND_THEIRS[p] += 1;
+        } else {
+            VH_IND_BAD = true;
+        }
+    }
 }
 
-/// `delivered[p]` counts how often position p was handed out by the operation.
+fn env_pull<I: ConcurrentIter>() {
+    unsafe {
+        if VH_IND_BUDGET == 0 || !kani::any::<bool>() {
+            return;
+        }
+        VH_IND_BUDGET -= 1;
+        VH_IND_RAN = true;
+        let it = &*(VH_IND_IT as *const I);
+        if kani::any() {
+            if let Some(x) = it.next_id_and_value() {
+                theirs(x.idx);
+            }
+        } else {
+            let m: usize = kani::any();
+            kani::assume(m >= 1 && m <= LEN + 1);
+            if let Some(c) = it.next_chunk(m) {
+                let b = c.begin_idx;
+                let k = c.values.len();
+                let mut i = 0;
+                while i < LEN {
+                    if i < k {
+                        theirs(b + i);
+                    }
+                    i += 1;
+                }
+            }
+        }
+    }
+}
+
+/// METHOD-level facts (not the property itself): the reduction "every interleaving is equivalent to the
+/// sequential order of the counter's modifications" needs every pull to be ONE read-modify-write. If this
+/// fails the property is not decided by this harness (inconclusive) unless a property-level assertion
+/// below fails too.
+fn one_rmw(n: usize) {
+    assert!(
+        hook::count() == 1,
+        "METHOD C01 C04 C09: a pull on a known-size source performs exactly one atomic access (basis of the single-RMW reduction and of the lock-freedom claim)"
+    );
+    let e = hook::ev(0);
+    assert!(e.kind == K_FETCH_ADD, "METHOD C01 C04 C09: the single atomic access of a pull is a fetch_add");
+    assert!(e.operand == n, "METHOD C01 C03: the pull reserves exactly the requested number of positions");
+    assert!(
+        e.ord == O_ACQREL || e.ord == O_SEQCST || e.ord == O_RELEASE || e.ord == O_ACQUIRE || e.ord == O_RELAXED,
+        "harness: ordering code"
+    );
+}
+
+/// `delivered[p]` counts how often position p was handed out by the operation under test.
 struct Out {
     delivered: [u8; LMAX],
     none: bool,
 }
 
-fn check_positions(o: &Out, b: usize, n: usize, len: usize) {
-    let mut p = 0;
-    while p < len {
-        let inside = p >= b && p - b < n;
-        if inside {
-            assert!(o.delivered[p] == 1, "C01 C03: a reserved in-range position was not delivered exactly once");
-        } else {
-            assert!(o.delivered[p] == 0, "C01 C05: a position outside the reserved interval was delivered");
-        }
-        p += 1;
-    }
-    assert!(o.none == (b >= len), "C05 C03 C01: end must be reported iff the reserved interval is empty");
+fn mark(o: &mut Out, p: usize) {
+    assert!(p < LMAX, "C01 C16: a position far outside the source was delivered");
+    o.delivered[p] += 1;
 }
 
-fn chunk_out<T, V: ExactSizeIterator<Item = T>, F: Fn(T) -> usize>(
-    begin_idx: usize,
-    mut vals: V,
-    b: usize,
-    n: usize,
-    len: usize,
-    f: &F,
-    o: &mut Out,
-) {
-    assert!(begin_idx == b, "C02 C03 C04: begin_idx must be the value read by the reservation");
+fn chunk_out<T, V: ExactSizeIterator<Item = T>, F: Fn(T) -> usize>(begin_idx: usize, mut vals: V, n: usize, len: usize, f: &F, o: &mut Out) {
     let announced = vals.len();
     assert!(announced >= 1, "C03 C16: empty chunk");
-    assert!(b < len, "C05 C01: chunk delivered although the reservation starts at or past the end");
-    assert!(announced == n.min(len - b), "C03: chunk length must be min(n, remaining)");
+    assert!(begin_idx < len, "C05 C01: chunk delivered although it starts at or past the end");
+    assert!(announced == n.min(len - begin_idx), "C03: chunk length must be min(n, remaining from begin_idx)");
     let mut k = 0;
     while k < LEN && k < announced {
         match vals.next() {
@@ -94,7 +122,7 @@ fn chunk_out<T, V: ExactSizeIterator<Item = T>, F: Fn(T) -> usize>(
             Some(v) => {
                 let p = f(v);
                 assert!(p == begin_idx + k, "C02 C03: chunk element k is not the source element at begin_idx+k");
-                o.delivered[p] += 1;
+                mark(o, p);
             }
         }
         k += 1;
@@ -109,7 +137,13 @@ where
     <I as AtomicIter<<I as ConcurrentIter>::Item>>::counter(it)
 }
 
-/// One symbolic operation from counter state `c`; returns the value the operation's RMW read.
+/// The inductive step. Pre-state: the counter is an arbitrary `c` and (invariant) exactly the positions
+/// `[0, min(c,len))` have been delivered. One symbolic operation runs while another party may perform one
+/// complete pull at any of its atomic access points. Post-state `c'`: asserted
+///   * `c' >= c` (monotone), and exactly the positions `[min(c,len), min(c',len))` were delivered by the two
+///     parties together, each once, none below `c` (so the invariant holds again: exactly-once, gap-free);
+///   * index fidelity, chunk contract, end reports only when nothing is left.
+/// Returns `c`.
 fn ind_step<I, F>(it: &I, len: usize, ops: u8, f: F) -> usize
 where
     I: ConcurrentIter + AtomicIter<<I as ConcurrentIter>::Item>,
@@ -126,68 +160,65 @@ where
     kani::assume(n >= 1 && n <= NMAX);
     let mut o = Out { delivered: [0; LMAX], none: false };
     let on = |x: u8| (ops >> x) & 1 == 1 && op == x;
+    unsafe {
+        VH_IND_IT = it as *const I as *const ();
+        VH_IND_BUDGET = 1;
+        VH_ENV = Some(env_pull::<I>);
+    }
     hook::reset();
+    let mut is_pull = true;
     if on(I_NEXT) {
         let r = it.next();
-        let b = one_rmw(1);
-        assert!(b == c, "harness: single-threaded step reads the stored counter");
+        one_rmw(1);
         match r {
             None => o.none = true,
-            Some(v) => {
-                let p = f(v);
-                assert!(p == b, "C02 C04: a single pull must deliver the element at the reserved index");
-                o.delivered[p.min(LMAX - 1)] += 1;
-            }
+            Some(v) => mark(&mut o, f(v)),
         }
-        check_positions(&o, b, 1, len);
-        kani::cover!(len > 0 && b + 1 == len, "W: last element by single pull");
-        kani::cover!(b > len, "W: counter already beyond the end");
+        kani::cover!(len > 0 && c + 1 == len && !o.none, "W: last element by single pull");
+        kani::cover!(c > len, "W: counter already beyond the end");
     } else if on(I_NEXT_ID) {
         let r = it.next_id_and_value();
-        let b = one_rmw(1);
+        one_rmw(1);
         match r {
             None => o.none = true,
             Some(x) => {
-                assert!(x.idx == b, "C02 C04: reported index must be the reserved index");
                 let p = f(x.value);
                 assert!(p == x.idx, "C02: element delivered with index i is not the source element at i");
-                o.delivered[p.min(LMAX - 1)] += 1;
+                mark(&mut o, p);
             }
         }
-        check_positions(&o, b, 1, len);
     } else if on(I_CHUNK) {
         let r = it.next_chunk(n);
-        let b = one_rmw(n);
+        one_rmw(n);
         match r {
             None => o.none = true,
-            Some(ch) => chunk_out(ch.begin_idx, ch.values, b, n, len, &f, &mut o),
+            Some(ch) => chunk_out(ch.begin_idx, ch.values, n, len, &f, &mut o),
         }
-        check_positions(&o, b, n, len);
-        kani::cover!(!o.none && b + n > len && b > 0, "W: short final chunk from the middle");
+        kani::cover!(!o.none && c + n > len && c > 0, "W: short final chunk from the middle");
         kani::cover!(!o.none && n > LEN, "W: chunk size far beyond the length");
     } else if on(I_BUF) {
         let mut bi = it.buffered_iter(n);
         hook::reset();
         let r = bi.next();
-        let b = one_rmw(n);
+        one_rmw(n);
         match r {
             None => o.none = true,
-            Some(ch) => chunk_out(ch.begin_idx, ch.values, b, n, len, &f, &mut o),
+            Some(ch) => chunk_out(ch.begin_idx, ch.values, n, len, &f, &mut o),
         }
-        check_positions(&o, b, n, len);
-        kani::cover!(!o.none && b + n > len && b > 0, "W: short final buffered chunk from the middle");
+        kani::cover!(!o.none && c + n > len && c > 0, "W: short final buffered chunk from the middle");
     } else if on(I_SKIP) {
+        is_pull = false;
         it.skip_to_end();
-        assert!(hook::count() == 1, "C09 C06: skip_to_end must be a single atomic access");
-        let e = hook::ev(0);
-        assert!(e.kind == K_STORE, "C06: skip_to_end must be a store");
-        assert!(e.new >= len, "C06: after skip_to_end every later reservation must fall outside the source");
-        assert!(e.ord == O_SEQCST || e.ord == O_RELEASE || e.ord == O_ACQREL, "C06 C07: skip_to_end store ordering");
+        assert!(
+            hook::count() == 1,
+            "METHOD C09 C06: skip_to_end is a single atomic access"
+        );
         kani::cover!(c < len, "W: skipped before the end");
-        return c;
     } else if on(I_LEN) {
+        is_pull = false;
+        unsafe { VH_ENV = None };
         let l = it.try_get_len();
-        assert!(hook::count() == 1, "C09 C11: try_get_len must be a single atomic access");
+        assert!(hook::count() == 1, "METHOD C09 C11: try_get_len is a single atomic access");
         assert!(hook::ev(0).kind == K_LOAD, "C11: try_get_len must not modify the counter");
         let want = if c < len { len - c } else { 0 };
         assert!(l == Some(want), "C11: try_get_len must be max(len - counter, 0)");
@@ -196,15 +227,60 @@ where
             h == if want == 0 { HasMore::No } else { HasMore::Yes(want) },
             "C11: has_more must agree with try_get_len"
         );
-        return c;
     } else {
-        return c;
+        is_pull = false;
     }
-    // (3) the counter afterwards
+    unsafe { VH_ENV = None };
     hook::reset();
     let after = ctr(it).current();
-    assert!(after == c + if op <= I_NEXT_ID { 1 } else { n }, "C01 C04: counter must advance by exactly the reservation");
+    assert!(!unsafe { VH_IND_BAD }, "C01: the other party received a position far outside the source");
+    if on(I_SKIP) {
+        assert!(after >= len, "C06: after skip_to_end every later reservation must fall outside the source");
+    }
+    if is_pull || on(I_SKIP) {
+        if is_pull {
+            assert!(after >= c, "C04 C05: a pull must never move the position counter backwards");
+        }
+        // exactly the positions between the two counter states were handed out, each once
+        let lo = c.min(len);
+        let hi = if on(I_SKIP) { lo.max(unsafe { first_undelivered(len) }) } else { after.min(len) };
+        let mut p = 0;
+        while p < LEN {
+            if p < len {
+                let total = o.delivered[p] + unsafe { VH_IND_THEIRS[p] };
+                if p >= lo && p < hi {
+                    assert!(total >= 1, "C01 C04: a position the counter has passed was delivered to nobody (lost element / gap)");
+                    assert!(total <= 1, "C01: a position was delivered twice (to the operation and/or a concurrent pull)");
+                } else {
+                    assert!(total == 0, "C01 C05: a position outside the interval the counter passed was delivered (delivered again, or beyond the cursor)");
+                }
+            }
+            p += 1;
+        }
+        if is_pull && o.none {
+            assert!(after >= len, "C05 C01: a pull reported the end although the cursor has not reached the end");
+        }
+    }
+    kani::cover!(unsafe { VH_IND_RAN } && is_pull && !o.none, "W: a foreign pull was interleaved with a delivering operation");
     c
+}
+
+/// After a skip the foreign pull (if it ran before the skip) delivered a prefix of the undelivered part:
+/// the first position nobody received.
+unsafe fn first_undelivered(len: usize) -> usize {
+    let mut p = 0;
+    let mut first = len;
+    while p < LEN {
+        if p < len && VH_IND_THEIRS[p] == 1 {
+            first = p + 1;
+        }
+        p += 1;
+    }
+    if first == len && !VH_IND_RAN {
+        0
+    } else {
+        first
+    }
 }
 
 const ALL: u8 = 0b111111;
